@@ -949,6 +949,19 @@ func (c *c15) opSendJoin() {
 		sigs[string(rm.R().Name)][kid] = base64.RawStdEncoding.EncodeToString(world.CompactBytes(t, "forged-local-signature", 64))
 		raw = setSigs(raw, sigs)
 		r.Probe("send_join_carries_signature_under_resident_name")
+		if t.Chance(300) {
+			// ... or just a null entry under the resident's name
+			var top map[string]json.RawMessage
+			var sm map[string]json.RawMessage
+			if json.Unmarshal(raw, &top) == nil && json.Unmarshal(top["signatures"], &sm) == nil {
+				sm[string(rm.R().Name)] = json.RawMessage("null")
+				top["signatures"], _ = json.Marshal(sm)
+				if nb, err := json.Marshal(top); err == nil {
+					raw = nb
+					r.Probe("send_join_carries_null_entry_under_resident_name")
+				}
+			}
+		}
 	}
 	submitted := append([]byte{}, raw...)
 	if pathRoom == "" {
